@@ -54,6 +54,16 @@ MIMETYPES.add_type("text/vcard", ".vcf")  # type: ignore
 DEFAULT_MIME_TYPE = "application/octet-stream"
 
 
+def guess_mime_type(name: str) -> Optional[str]:
+    """Guess the MIME type of a file from its name.
+
+    MimeTypes.guess_type() takes a URL, and ``name`` is a file name: prefix it
+    so that e.g. "a:.ics" is not read as scheme "a" followed by ".ics".
+    """
+    (mime_type, _) = MIMETYPES.guess_type("./" + name)
+    return mime_type
+
+
 class InvalidCTag(Exception):
     """The request CTag can not be retrieved."""
 
@@ -203,7 +213,7 @@ def open_by_extension(
       name: Name of file to open
     Returns: File instance
     """
-    (mime_type, _) = MIMETYPES.guess_type(name)
+    mime_type = guess_mime_type(name)
     if mime_type is None:
         mime_type = DEFAULT_MIME_TYPE
     return open_by_content_type(
